@@ -52,6 +52,11 @@ Inductive case :=
 | CMM (thr : bool) (b c f o : Z) (lbl : mlabel) (cf : option Q)
 | CSearch (b c o f : Z) (out : sphase)
 | CSpe (b c f : Z) (out : pphase) (progress : Q)
+(* the real SPENextPoints(params).view() with the suggestion generation stubbed: `ob` = metrics_info.observation_budget
+   (None, 0 as a Python int or a NumPy integer, or positive), `dim` = number of parameters of the request's domain,
+   c / f = observations / failures of the request; ibudget = the budget the view handed to get_experiment_phase;
+   out / progress = the phase tag and progress the view served *)
+| CSpeView (ob : option Z) (dim c f ibudget : Z) (out : pphase) (progress : Q)
 | CSolver (p : pphase) (progress u gamma pf : Q)
 | CWeights (rs : bool) (halton : list Q) (f : Q) (us : list Q) (w0 w1 : Q)
 | CEpsilon (f : Q) (us : list Q) (e : Q)
@@ -80,6 +85,12 @@ Definition check (c : case) : bool :=
   | CSearch b c o f out => sphase_eqb (search_phase b c o f) out
   | CSpe b c f out progress =>
       let '(p, pr) := spe_phase b c f in pphase_eqb p out && close pr progress
+  | CSpeView ob dim c f ibudget out progress =>
+      Z.eqb (spe_view_budget ob dim) ibudget && Z.leb 1 ibudget &&
+      match spe_view_phase ob dim c f with
+      | Some (p, pr) => pphase_eqb p out && close pr progress
+      | None => false
+      end
   | CSolver p progress u gamma pf =>
       let '(g, q) := spe_solver_options p progress u in close g gamma && close q pf
   | CWeights rs halton f us w0 w1 =>
